@@ -506,7 +506,7 @@ def main(tier, replay):
     if tier == "quick":
         res, log = run_streams(exe, "quick", "main", base + ["-budget", "80s"], timeout=700)
     else:
-        res, log = run_streams(exe, "thorough", "main", base + ["-budget", "14m"], timeout=1500)
+        res, log = run_streams(exe, "thorough", "main", base + ["-budget", "10m"], timeout=2700)
     if res is None:
         th.join()
         raise RuntimeError("the harness produced no results:\n" + log[-3000:])
@@ -532,7 +532,7 @@ def main(tier, replay):
                 rres["histories"], rres["messages_sent"], len(rres.get("findings") or []))
     else:
         rres, rlog = run_streams(exe, "thorough", "race", ["-workers", str(max(2, common.NPROC // 2)), "-worker-exe", rexe, "-race",
-                                 "-streams", "burst,repeat,disconnect,random,states", "-budget", "8m"], timeout=1200)
+                                 "-streams", "burst,repeat,disconnect,random,states", "-budget", "6m"], timeout=2400)
         if rres is None:
             race_note = "race run produced no results: " + rlog[-300:]
         else:
